@@ -680,7 +680,8 @@ impl<'a, 't, 'g> VGen<'a, 't, 'g> {
                         VKind::Str,
                     )
                 }
-                9 if allow_fb && !constant && !self.fbs.is_empty() && vt == VariableType::Var => {
+                // (an instance may also be handed in by the caller: VAR_IN_OUT, VAR_INPUT, VAR_OUTPUT)
+                9 if allow_fb && !constant && !self.fbs.is_empty() && (vt == VariableType::Var || ((vt == VariableType::InOut || vt == VariableType::Input || vt == VariableType::Output) && self.g.want("INSTANCE_HANDED_IN_BY_THE_CALLER"))) => {
                     let f = self.t.below(self.fbs.len());
                     let nm = self.fbs[f].name.clone();
                     let mut ty = self.type_ref(&nm);
@@ -731,7 +732,7 @@ impl<'a, 't, 'g> VGen<'a, 't, 'g> {
                 }
             }
             let mut qq = q.clone();
-            if let VKind::Fb(_) = kind {
+            if let (VKind::Fb(_), true) = (&kind, vt == VariableType::Var) {
                 if self.site(FaultKind::ConstFb) {
                     qq = DeclarationQualifier::Constant;
                     self.set_marker(&name);
